@@ -115,6 +115,21 @@ def duplicateIds (s : AState) : AState × List String :=
 def switchModel (s : AState) : AState :=
   setModel { s with ids := s.other, other := s.ids } s.other
 
+/-! `Printer::printModel(model, true)`: the printer collects the identifiers present in the model (`listIds`, MathML
+    identifiers excepted), and every printed element without one gets `makeUniqueId(idList)`, which starts counting at
+    0xb4da55 on every call and records what it hands out.  The model itself is not touched. -/
+
+/-- the identifiers handed out for `k` elements that lack one -/
+def freshIds (existing : List String) : Nat → List String
+  | 0 => []
+  | k+1 =>
+    let id := (makeUnique existing (existing.length + 1) 0xb4da55).1
+    id :: freshIds (id :: existing) k
+
+/-- what `listIds` collects: the identifier of every slot that is not a MathML block (kind 6) -/
+def printerIds (sh : Shape) (ids : List String) : List String :=
+  nonEmpty ((ids.zip sh.kinds).filterMap fun p => if p.2 = 6 then none else some p.1)
+
 /-- operations of a history -/
 inductive Op
   | setModel (ids : List String)
